@@ -22,12 +22,25 @@ ASSUMPTIONS = ['in log scale a non-positive lower limit is replaced as documente
 CHUNK = 2
 
 RES = [256, 1000, 1024, 4096, 65536, 262144]
-STATES = ['raw', 'rfi-lin', 'rfi-log4', 'rfi-log2.5-0', 'mef']
+STATES = ['raw', 'rfi-lin', 'rfi-log4', 'rfi-log2.5-0', 'mef', 'float-neg']
 
 
 def make(res3, state):
     """three channels with the same state but different resolutions; returns sample and the per-channel value function"""
     import FlowCal
+    if state == 'float-neg':
+        # floating-point sample with negative events (compensated data): only logicle scale looks at the events
+        ev = [[0.0, 0.0, 0.0], [1.0, 1.0, 1.0], [float(r - 1) for r in res3], [float(r // 2) for r in res3],
+              [-0.01 * res3[0], -0.2 * res3[1], -3.0], [-1.0, -0.5, -0.25]]
+        lay = dict(datatype='D', bits=[64] * 3, ranges=list(res3), byteord='4,3,2,1',
+                   events=[[fcsgen.float_bits(x, 'D') for x in r] for r in ev])
+        buf, _ = fcsgen.build(lay)
+        p = os.path.join(scratch(), 'c19f.fcs')
+        with open(p, 'wb') as f:
+            f.write(buf)
+        d = FlowCal.io.FCSData(p)
+        d._c19_min = [min(r[j] for r in ev) for j in range(3)]
+        return d, [lambda x: x] * 3
     pne = {'raw': '0,0', 'rfi-lin': '0,0', 'rfi-log4': '4,1', 'rfi-log2.5-0': '2.5,0', 'mef': '4,1'}[state]
     events = [[0, 0, 0], [1, 1, 1]] + [[r - 1 for r in res3]] + [[r // 2 for r in res3]]
     extra = [('$P%dG' % (j + 1), g) for j, g in enumerate(['2.0', '0.5', '4.0'])] if state == 'rfi-lin' else []
@@ -63,6 +76,7 @@ def cases(tier, seed):
         for st in STATES:
             for scale in ('linear', 'log', 'logicle'):
                 yield dict(res=rs, state=st, scale=scale, tier=tier)
+                yield dict(res=rs, state=st, scale=scale, tier=tier, history='after-log')
             yield dict(res=rs, state=st, scale='lists', tier=tier)
 
 
@@ -162,6 +176,12 @@ def run_case(c):
                 res.ok('refused', True)
             res.sample({'state': st, 'resolutions': rs, 'scale': 'per-channel lists', 'channels': [[0, 1, 2], ['CH3', 'CH1', 'CH2'], [2, 'CH1'], None]})
             return res
+        if c.get('history') == 'after-log':
+            # the same questions after log-scale bins have been asked for on the same object (answers must not depend on it)
+            for j in range(3):
+                d.hist_bins(j, None, 'log')
+                d.hist_bins(j, 5, 'log')
+            d.hist_bins(None, None, 'log')
         overrides = [{}]
         if scale == 'logicle':
             overrides = [{}, {'T': 5e4}, {'M': 5.0}, {'W': 0.8}, {'T': 1e5, 'M': 5.5, 'W': 0.3}, {'W': 0.0}]
@@ -171,7 +191,7 @@ def run_case(c):
                 n = r if nb is None else nb
                 for kw in overrides:
                     what = 'hist_bins(%s, channel %d (resolution %d), nbins=%r, scale=%r%s)' % (st, j, r, nb, scale, ''.join(', %s=%r' % kv for kv in kw.items()))
-                    sig = '%s:%s' % (scale, st)
+                    sig = '%s:%s%s' % (scale, st, ':after-log' if c.get('history') else '')
                     try:
                         e = d.hist_bins(j, nb, scale, **kw)
                     except Exception as ex:
@@ -191,7 +211,10 @@ def run_case(c):
                     if scale == 'logicle':
                         T = kw.get('T', lim[1])
                         M = kw.get('M', logicleref.derived_M(T))
-                        W = kw.get('W', 0.0)          # no negative events in these samples
+                        W = kw.get('W')
+                        if W is None:
+                            mn = getattr(d, '_c19_min', [0, 0, 0])[j]
+                            W = logicleref.derived_W(T, M, mn if mn < 0 else None)
                         delta = M / (r - 1.0)
                         p = logicleref.p_of_W(W)
                         grid = [(-delta / 2) + i * (M + delta) / n for i in range(n + 1)]
